@@ -4,11 +4,49 @@ keyed by symbolic values keeps them symbolic.  Behaviour on concrete keys is tha
 from collections.abc import MutableMapping, MutableSet
 
 
-def _same(a, b):
+def _eq_term(a, b):
+    """equality of two keys as one Boolean: a Python bool, or a z3 term built without forking (tuples/lists are
+    compared element-wise and conjoined, so that one lookup forks once per stored key, not once per element)"""
+    import z3
+    from .values import SymInt, SymQ, SymReal, SymBool
+    from .strs import SymStr
+    if isinstance(a, (tuple, list)) and isinstance(b, (tuple, list)):
+        if type(a) is not type(b) or len(a) != len(b):
+            return False
+        parts = []
+        for x, y in zip(a, b):
+            t = _eq_term(x, y)
+            if t is False:
+                return False
+            if t is not True:
+                parts.append(t)
+        return True if not parts else (z3.And(parts) if len(parts) > 1 else parts[0])
+    if isinstance(a, SymStr) or isinstance(b, SymStr):
+        if isinstance(a, SymStr) and isinstance(b, (str, SymStr)):
+            return a.eq_term(b)
+        if isinstance(b, SymStr) and isinstance(a, str):
+            return b.eq_term(a)
+        return False
+    if isinstance(a, (SymInt, SymQ, SymReal, SymBool)) or isinstance(b, (SymInt, SymQ, SymReal, SymBool)):
+        try:
+            r = (a == b)
+        except TypeError:
+            return False
+        if isinstance(r, SymBool):
+            return r.t
+        return bool(r)
     try:
         return bool(a == b)
     except TypeError:
         return False
+
+
+def _same(a, b):
+    t = _eq_term(a, b)
+    if isinstance(t, bool):
+        return t
+    from . import engine
+    return engine.cur().branch(t)
 
 
 class SymDict(MutableMapping):
